@@ -887,3 +887,127 @@ def make_L15():
 
 
 L15 = make_L15()
+
+
+# ---------------------------------------------------------------- C05: re-layout (line breaks, comments, extra blanks at existing token gaps)
+from vsg import tokens as tokens_mod
+from vsg import exceptions as vsg_exceptions
+
+
+def code_roles(oFile):
+    return [type(t).__module__ + "." + type(t).__name__ for t in oFile.lAllObjects if is_code(t)]
+
+
+_BASE_CODE_ROLES = {}
+
+
+def base_code_roles(fixture):
+    if fixture not in _BASE_CODE_ROLES:
+        _BASE_CODE_ROLES[fixture] = code_roles(vhdlFile_pkg.vhdlFile(read_fixture(fixture)))
+    return _BASE_CODE_ROLES[fixture]
+
+
+def line_is_relayoutable(s):
+    t = s.strip()
+    if not t or t.startswith("--") or t.startswith("#") or "/*" in s or "*/" in s or "vsg_" in s or "`" in s:
+        return False
+    return True
+
+
+def relayout(eng, p):
+    fixture, window = p["fixture"], p["window"]
+    lines = read_fixture(fixture)
+    out = []
+    ngaps = 0
+    maxgaps = p.get("gaps", 5)
+    for i, s in enumerate(lines):
+        if not (window[0] <= i <= window[1]) or not line_is_relayoutable(s):
+            out.append(s)
+            continue
+        toks = tokens_mod.create(s)
+        cur = ""
+        comment_started = False
+        for j, tk in enumerate(toks):
+            if tk.startswith("--"):
+                comment_started = True
+            if comment_started or not tk or not tk.isspace() or j == 0 or j == len(toks) - 1 or ngaps >= maxgaps:
+                cur += tk
+                continue
+            ngaps += 1
+            c = eng.choose("gap%d" % ngaps, 4)
+            if c == 0:
+                cur += tk
+            elif c == 1:
+                out.append(cur)
+                cur = "      "
+            elif c == 2:
+                out.append(cur + " -- relayout")
+                cur = "    "
+            else:
+                cur += tk + "  \t"
+        if not comment_started and ngaps < maxgaps:
+            ngaps += 1
+            c = eng.choose("eol%d" % ngaps, 3)
+            if c == 1:
+                cur += "  -- trailing"
+            elif c == 2:
+                out.append(cur)
+                cur = "  -- own line"
+        out.append(cur)
+    clauses = []
+    try:
+        o = vhdlFile_pkg.vhdlFile(out)
+    except vsg_exceptions.ClassifyError:
+        return [("C05:relayout_is_accepted", False)]
+    clauses.append(("C05:relayout_is_accepted", True))
+    clauses.append(("C05:roles_independent_of_layout", code_roles(o) == base_code_roles(fixture)))
+    clauses.append(("C04:relayout_emit_equals_input", o.get_lines()[1:] == out))
+    return clauses
+
+
+def relayout_describe(values, p):
+    return {"fixture": p["fixture"], "window": p["window"], "choices": {k: v for k, v in values.items() if k.startswith(("gap", "eol"))},
+            "legend": "gap: 0 keep, 1 line break, 2 comment + line break, 3 extra blanks/tab; eol: 0 keep, 1 trailing comment, 2 comment line"}
+
+
+def make_L05b():
+    class L05b(Harness):
+        name = "L05b"
+        prop = "C05"
+        props = ("C05", "C04")
+        parallel_params = True
+        per_clause_findings = True
+        title = "re-layout: replacing the whitespace at up to 5 token gaps of a window by a line break, a comment plus line break or extra blanks, and adding trailing / own-line comments, leaves every code token's role unchanged and the file accepted"
+        functions = ("vsg.tokens", "vsg.vhdlFile", "vsg.parser")
+        stubs = ()
+        assumptions = ("lines that are comments, preprocessor lines, contain delimited comments or code tags are left alone (their meaning is layout dependent by design)",)
+        bounds = "corpus fixtures x a window of 1-2 lines x every assignment of {keep, line break, comment+line break, blanks+tab} to the first 5 whitespace gaps and {keep, trailing comment, comment line} to the line end (structural choices forked by the engine); quick ~8 windows, thorough ~120"
+        outside = "re-layouts touching more than 5 gaps at once; removal of existing line breaks"
+        min_conclusive_share = 0.5
+        exception_props = ("C05", "C19")
+
+        def params(self, tier):
+            seed = int(os.environ.get("VERIF_SEED", "0") or 0)
+            rnd = random.Random(7000 + seed)
+            n = 8 if tier == "quick" else 120
+            out = []
+            for f in rnd.sample(ALL_FIXTURES, n):
+                cl = [i for i in code_lines(f) if line_is_relayoutable(read_fixture(f)[i])]
+                if not cl:
+                    continue
+                lo = rnd.choice(cl)
+                out.append({"fixture": f, "window": [lo, lo + 1], "gaps": 5, "_limits": {"shard_paths": 3000}})
+            return out
+
+        def run(self, eng, p):
+            return relayout(eng, p)
+
+        def describe(self, values, p):
+            return relayout_describe(values, p)
+
+        signature = staticmethod(l_signature)
+
+    return register(L05b)
+
+
+L05b = make_L05b()
